@@ -66,7 +66,7 @@ def split_independent(sig_t, masks):
     return out
 
 
-def run_schedule(text, feed, batches, pastify, omit_empty=False, refill=False):
+def run_schedule(text, feed, batches, pastify, omit_empty=False, refill=False, edit_outputs=False):
     try:
         spec = build('ct_on', text, feed, pastify=pastify)
         outs = []
@@ -85,6 +85,13 @@ def run_schedule(text, feed, batches, pastify, omit_empty=False, refill=False):
             out = spec.update(*args)
             # copied at once: the monitor may hand back the caller's own list object (out = x), which a refilling caller reuses
             outs.append([list(p) if isinstance(p, (list, tuple)) else p for p in out] if isinstance(out, list) else out)
+            if edit_outputs and isinstance(out, list):
+                # the caller converts the samples it received in place (another time axis); samples that are the caller's
+                # own input objects (out = x hands them back) are left alone
+                mine = set(id(p) for a in args for p in a[1])
+                for p in out:
+                    if isinstance(p, list) and id(p) not in mine and len(p) == 2 and isinstance(p[0], (int, float)):
+                        p[0] = p[0] * 1000.0 + 7.0
         return ('ok', outs)
     except RecursionError:
         raise
@@ -149,6 +156,8 @@ def cases(draw, tier, pastified=False, bounded=True, chunked=True):
         c['omit_empty'] = draw(st.booleans())
     # the caller passes the same list object per variable in every call and refills it in place (a receive buffer)
     c['refill'] = draw(st.integers(0, 3)) == 0
+    # the caller edits the samples it got back in place (e.g. converts their time stamps) before the next call
+    c['edit_outputs'] = draw(st.integers(0, 3)) == 0
     return c
 
 
@@ -200,7 +209,10 @@ def check(case):
     refill = bool(case.get('refill'))
     if refill:
         labels.append('caller-refills-its-lists')
-    o = run_schedule(text, feed, batches, pastified, omit, refill)
+    edit = bool(case.get('edit_outputs'))
+    if edit:
+        labels.append('caller-edits-returned-samples')
+    o = run_schedule(text, feed, batches, pastified, omit, refill, edit)
     o1 = run_schedule(text, feed, whole, pastified)
     desc = 'spec: %s%s\nsignals: %s\nschedule (%s%s): %s' % (text, '  [pastified, horizon %s]' % float(h * q) if pastified else '', sig_t,
                                                            case.get('schedule'), ', a variable without new samples is left out of the call' if omit else '', batches)
